@@ -252,7 +252,7 @@ def sample_lines(ctx, path, n, keep=None):
         if len(must) > 3 * n:
             ctx.rng.shuffle(must)
             must = must[:3 * n]
-        lines = must + rest[:max(0, n - len(must))]
+        lines = must + rest[:max(n // 4, n - len(must))]          # always a random part too, however many cases the property keeps
     p = path + ".sample"
     open(p, "w").write("\n".join(lines) + "\n")
     return p, len(lines)
